@@ -205,7 +205,7 @@ PROPS = {
     },
     "C12": {
         "thm_module": ["AkdModel.Thm.C12"],
-        "theorems": [],
+        "theorems": ["Akd.Conc." + t for t in ["serializable", "noop_no_effect", "progress", "lost_epoch_witness", "validate_consecutive"]],
         "streams": ["l1.sched"],
         "post": post_c12,
         "rule": "two and three publish calls on clones of one real Directory run as tasks on a current-thread runtime over a "
@@ -221,15 +221,18 @@ PROPS = {
         "thm_module": ["AkdModel.Thm.C13"],
         "theorems": ["Akd.C13." + t for t in ["snapshot_read", "resolve_current", "resolve_lag1", "write_preserves", "write_new",
                                               "write_frame", "lag2_witness"]],
-        "streams": ["l1.dir.c13"],
-        "rule": "histories with a label updated in every epoch; four read-only instances (own cached storage manager with a 2 ms "
+        "streams": ["l1.dir.c13", "l1.sched.read"],
+        "rule": "(a) read requests (epoch hash, lookup, complete / most-recent history, audit; one or two at a time) on a second, "
+                "read-only instance (uncached, default cache, 1 ms cache) run as tasks interleaved with a publish on the writer at "
+                "storage-call granularity: ALL schedules with at most 2 (thorough: 3) preemptions; oracle: every answer is an error or "
+                "an (epoch, root hash) pair that was published, with a proof that verifies against it, never older than what was "
+                "published before the request started; (b) histories with a label updated in every epoch; four read-only instances (own cached storage manager with a 2 ms "
                 "item lifetime over the shared database) are re-pinned in rotation so that at any time their cached epoch record "
                 "lags storage by 0, 1, 2 and 3 effective epochs; after every publish each of them serves epoch hash, lookups, "
                 "complete and most-recent histories and audits; every answer is compared with the model (a directory whose epoch "
                 "record is pinned while node records advance) and judged by the oracle: error, or an (epoch, root hash) pair the "
                 "writer really published for that epoch together with a proof that verifies against it",
-        "assumptions": ["interleavings of a reader with a commit at storage-operation granularity are not yet explored by this check "
-                        "(sequential lag only)"],
+        "assumptions": ["cache fills racing a commit on ONE storage manager and the change poller are not explored (partial)"],
     },
     "C14": {
         "thm_module": ["AkdModel.Thm.C01b", "AkdModel.Thm.C01a"],
